@@ -28,31 +28,31 @@ func (s *S) leafFns(budget int) {
 			c.Class("id:invalid")
 		}
 		ci := s2.CellID(id)
-		I := vkit.U(id)
+		I := hz(id)
 		tag := fmt.Sprintf(" %x", id)
 		c.Eval("id:"+tag, true)
-		chk := func(name, term string) { c.Check(name+tag, term) }
-		chk("lsb", eqZ(vkit.App("s2_CellID_lsb", I), vkit.U(s2.VerifC11Lsb(ci))))
+		chk := func(name, term string) { s.t.check(name+tag, term) }
+		chk("lsb", eqZ(vkit.App("s2_CellID_lsb", I), hz(s2.VerifC11Lsb(ci))))
 		chk("Level", eqZ(vkit.App("s2_CellID_Level", I), vkit.Z(int64(ci.Level()))))
 		chk("Face", eqZ(vkit.App("s2_CellID_Face", I), vkit.Z(int64(ci.Face()))))
 		chk("IsValid", eqB(vkit.App("s2_CellID_IsValid", I), ci.IsValid()))
 		chk("IsLeaf", eqB(vkit.App("s2_CellID_IsLeaf", I), ci.IsLeaf()))
 		chk("isFace", eqB(vkit.App("s2_CellID_isFace", I), s2.VerifC11IsFace(ci)))
-		chk("RangeMin", eqZ(vkit.App("s2_CellID_RangeMin", I), vkit.U(uint64(ci.RangeMin()))))
-		chk("RangeMax", eqZ(vkit.App("s2_CellID_RangeMax", I), vkit.U(uint64(ci.RangeMax()))))
-		chk("immediateParent", eqZ(vkit.App("s2_CellID_immediateParent", I), vkit.U(uint64(s2.VerifC11ImmediateParent(ci)))))
-		chk("ChildBegin", eqZ(vkit.App("s2_CellID_ChildBegin", I), vkit.U(uint64(ci.ChildBegin()))))
-		chk("ChildEnd", eqZ(vkit.App("s2_CellID_ChildEnd", I), vkit.U(uint64(ci.ChildEnd()))))
-		chk("Next", eqZ(vkit.App("s2_CellID_Next", I), vkit.U(uint64(ci.Next()))))
-		chk("Prev", eqZ(vkit.App("s2_CellID_Prev", I), vkit.U(uint64(ci.Prev()))))
+		chk("RangeMin", eqZ(vkit.App("s2_CellID_RangeMin", I), hz(uint64(ci.RangeMin()))))
+		chk("RangeMax", eqZ(vkit.App("s2_CellID_RangeMax", I), hz(uint64(ci.RangeMax()))))
+		chk("immediateParent", eqZ(vkit.App("s2_CellID_immediateParent", I), hz(uint64(s2.VerifC11ImmediateParent(ci)))))
+		chk("ChildBegin", eqZ(vkit.App("s2_CellID_ChildBegin", I), hz(uint64(ci.ChildBegin()))))
+		chk("ChildEnd", eqZ(vkit.App("s2_CellID_ChildEnd", I), hz(uint64(ci.ChildEnd()))))
+		chk("Next", eqZ(vkit.App("s2_CellID_Next", I), hz(uint64(ci.Next()))))
+		chk("Prev", eqZ(vkit.App("s2_CellID_Prev", I), hz(uint64(ci.Prev()))))
 		ch := ci.Children()
 		chk("Children", eqL(vkit.App("s2_CellID_Children", I), zl([]uint64{uint64(ch[0]), uint64(ch[1]), uint64(ch[2]), uint64(ch[3])})))
 		lv := g.n(31)
 		L := vkit.Z(int64(lv))
-		chk(fmt.Sprintf("Parent@%d", lv), eqZ(vkit.App("s2_CellID_Parent", I, L), vkit.U(uint64(ci.Parent(lv)))))
-		chk(fmt.Sprintf("ChildBeginAtLevel@%d", lv), eqZ(vkit.App("s2_CellID_ChildBeginAtLevel", I, L), vkit.U(uint64(ci.ChildBeginAtLevel(lv)))))
-		chk(fmt.Sprintf("ChildEndAtLevel@%d", lv), eqZ(vkit.App("s2_CellID_ChildEndAtLevel", I, L), vkit.U(uint64(ci.ChildEndAtLevel(lv)))))
-		chk(fmt.Sprintf("lsbForLevel@%d", lv), eqZ(vkit.App("s2_lsbForLevel", L), vkit.U(s2.VerifC11LsbForLevel(lv))))
+		chk(fmt.Sprintf("Parent@%d", lv), eqZ(vkit.App("s2_CellID_Parent", I, L), hz(uint64(ci.Parent(lv)))))
+		chk(fmt.Sprintf("ChildBeginAtLevel@%d", lv), eqZ(vkit.App("s2_CellID_ChildBeginAtLevel", I, L), hz(uint64(ci.ChildBeginAtLevel(lv)))))
+		chk(fmt.Sprintf("ChildEndAtLevel@%d", lv), eqZ(vkit.App("s2_CellID_ChildEndAtLevel", I, L), hz(uint64(ci.ChildEndAtLevel(lv)))))
+		chk(fmt.Sprintf("lsbForLevel@%d", lv), eqZ(vkit.App("s2_lsbForLevel", L), hz(s2.VerifC11LsbForLevel(lv))))
 		// a second id: relative, random or invalid
 		var other uint64
 		switch {
@@ -65,10 +65,10 @@ func (s *S) leafFns(budget int) {
 			}
 			other = rel[0]
 		}
-		O := vkit.U(other)
+		O := hz(other)
 		oc := s2.CellID(other)
-		c.Check(fmt.Sprintf("Contains %x %x", id, other), eqB(vkit.App("s2_CellID_Contains", I, O), ci.Contains(oc)))
-		c.Check(fmt.Sprintf("Intersects %x %x", id, other), eqB(vkit.App("s2_CellID_Intersects", I, O), ci.Intersects(oc)))
+		s.t.check(fmt.Sprintf("Contains %x %x", id, other), eqB(vkit.App("s2_CellID_Contains", I, O), ci.Contains(oc)))
+		s.t.check(fmt.Sprintf("Intersects %x %x", id, other), eqB(vkit.App("s2_CellID_Intersects", I, O), ci.Intersects(oc)))
 
 		if !valid {
 			if ci.IsValid() != oValid(id) {
@@ -199,6 +199,6 @@ func (s *S) siblings(budget int) {
 				c.Violate("CellUnion.areSiblings", fmt.Sprintf("areSiblings=%v on distinct ids, four-children-of-one-cell is %v", got, want), hexs(q[:]))
 			}
 		}
-		c.Check(fmt.Sprintf("areSiblings %x", q), eqB(vkit.App("s2_areSiblings", vkit.U(q[0]), vkit.U(q[1]), vkit.U(q[2]), vkit.U(q[3])), got))
+		s.t.check(fmt.Sprintf("areSiblings %x", q), eqB(vkit.App("s2_areSiblings", hz(q[0]), hz(q[1]), hz(q[2]), hz(q[3])), got))
 	}
 }
